@@ -9,7 +9,7 @@ PHASES3 = [30, -90, 150]
 
 
 # ------------------------------------------------------------------ EVSEs
-def rand_evse(rng, kinds=("EVSE", "DB", "FR"), allow_inf=False):
+def rand_evse(rng, kinds=("EVSE", "DB", "FR"), allow_inf=False, user_p=0.06):
     k = rng.choice(kinds)
     if k == "EVSE":
         mx = rng.choice([16, 32, 80])
@@ -17,8 +17,13 @@ def rand_evse(rng, kinds=("EVSE", "DB", "FR"), allow_inf=False):
             mx = float("inf")
         return {"t": "EVSE", "max": mx, "min": 0}
     if k == "DB":
-        return {"t": "DB", "end": rng.choice([6, 6, 8]), "max": rng.choice([32, 32, 40])}
+        e_ = {"t": "DB", "end": rng.choice([6, 6, 8]), "max": rng.choice([32, 32, 40])}
+        if user_p and rng.random() < user_p:
+            e_["user"] = "derated"  # user subclass overriding max_rate (vlib.userext); "max" is the value it reports
+        return e_
     r = rng.random()
+    if user_p and rng.random() < user_p:
+        return {"t": "FR", "rates": [0, 8, 16, 24, 32], "user": "cable"}  # user subclass: levels up to 32, max_rate = cable rating 24
     if r < 0.35:
         rates = [0] + list(range(6, 33))
     elif r < 0.7:
@@ -33,6 +38,8 @@ def rand_evse(rng, kinds=("EVSE", "DB", "FR"), allow_inf=False):
 
 
 def evse_max(e):
+    if e.get("user") == "cable":
+        return min(max(list(e["rates"]) + [0]), 24)  # vlib.userext.CABLE_A: what the subclass's max_rate reports
     return e["max"] if e["t"] in ("EVSE", "DB") else max(list(e["rates"]) + [0])
 
 
@@ -161,6 +168,10 @@ def rand_battery(rng, request, kinds=("ideal", "l2c", "l2s"), noise_p=0.0, big=F
     k = rng.choice(kinds)
     if big:
         return {"t": "ideal", "cap": 1e6, "init": 0, "maxp": 1e4}
+    if k == "user":
+        free = request * rng.choice([1.0, 1.2, 3.0]) + rng.choice([0, 0.5])
+        init = rng.choice([0, 5, 20])
+        return {"t": "user", "cap": max(init + free, 0.5), "init": init, "maxp": rng.choice([3.3, 6.6, 11, 50])}
     free = request * rng.choice([1.0, 1.0, 1.2, 3.0]) + rng.choice([0, 0, 0.5])
     init = rng.choice([0, 0, 5, 20, 60])
     cap = init + free
